@@ -92,6 +92,7 @@ package diam
 //@   ensures data_ok: err == nil ==> a.Data != nil && valid(a.Data)
 //@   ensures [C04] cursor: err == nil && !typeis(a.Data, *GroupedAVP) ==> avplen(a) == pad4s(a.Length)
 //@   ensures [C04] payload: err == nil && !typeis(a.Data, *GroupedAVP) ==> forall i int :: 0 <= i && i < a.Length - hdrlen(a.Flags) ==> dbyte(a.Data, i) == data[hdrlen(a.Flags) + i]
+//@   ensures [C06] private: err == nil ==> !viewsInto(a.Data, data)
 //@ end
 //@
 //@ func DecodeAVP(data, application, dictionary) (a, err)
@@ -106,6 +107,7 @@ package diam
 //@   ensures data_ok: err == nil ==> a.Data != nil && valid(a.Data)
 //@   ensures [C04] cursor: err == nil && !typeis(a.Data, *GroupedAVP) ==> avplen(a) == pad4s(a.Length)
 //@   ensures [C04] payload: err == nil && !typeis(a.Data, *GroupedAVP) ==> forall i int :: 0 <= i && i < a.Length - hdrlen(a.Flags) ==> dbyte(a.Data, i) == data[hdrlen(a.Flags) + i]
+//@   ensures [C06] private: err == nil ==> !viewsInto(a.Data, data)
 //@ end
 //@
 //@ # ======================= group.go ========================================
